@@ -361,7 +361,7 @@ func (w *Writer) WriteCSM(csm io.ColumnSeriesMap, isVariableLength bool) error {
 	}
 	for _, p := range pending {
 		if err := w.WriteRecords(p.times, p.rowData, p.dbDSV, p.tbi); err != nil {
-			return fmt.Errorf("write records to %v: %w", p.tbi, err)
+			return fmt.Errorf("write records to %s: %w", p.tbi.Path, err)
 		}
 	}
 
